@@ -90,6 +90,9 @@ Qed.
 Lemma inject_Z_sub a b : inject_Z (a - b) == inject_Z a - inject_Z b.
 Proof. unfold Z.sub. rewrite inject_Z_plus, inject_Z_opp. reflexivity. Qed.
 
+Lemma Qdiv2 x : x / 2 == x * (1 # 2).
+Proof. reflexivity. Qed.
+
 (* 1/2 < s/n  <->  n/2 < s   for n > 0 *)
 Lemma half_lt_div s n : 0 < n -> ((1 # 2) < s / n <-> n * (1 # 2) < s).
 Proof.
@@ -119,8 +122,8 @@ Proof.
   destruct (style_filter us con cs) as [|c0 fs] eqn:E.
   - unfold votes. simpl. split; [discriminate|lia].
   - set (l0 := c0 :: fs). assert (Hn : 0 < nlen l0) by (apply nlen_pos; discriminate).
-    simpl xlt. rewrite Qlt_bool_iff, half_lt_div by assumption. rewrite sum_assort_pl.
-    rewrite Zlt_Qlt. split; intro H; lra.
+    clearbody l0. unfold xlt. rewrite Qlt_bool_iff, half_lt_div by assumption. rewrite sum_assort_pl.
+    rewrite Zlt_Qlt, Qdiv2. split; intro H; lra.
 Qed.
 
 Lemma plurality_iff us con cs W L :
@@ -151,13 +154,14 @@ Proof.
   intro Hf. unfold mean.
   rewrite <- (valid_filter us con cands cs), <- (valid_for_filter us con cands w cs).
   destruct (style_filter us con cs) as [|c0 fs] eqn:E.
-  - unfold valid_votes, valid_votes_for. simpl. split; [discriminate|intro H; lra].
+  - unfold valid_votes, valid_votes_for. simpl. change (inject_Z 0) with 0. split; [discriminate|intro H; lra].
   - set (l0 := c0 :: fs). assert (Hn : 0 < nlen l0) by (apply nlen_pos; discriminate).
-    simpl xlt. rewrite Qlt_bool_iff, half_lt_div by assumption. rewrite (sum_assort_sm _ _ _ _ _ Hf).
+    clearbody l0. unfold xlt. rewrite Qlt_bool_iff, half_lt_div by assumption. rewrite (sum_assort_sm _ _ _ _ _ Hf).
     set (wv := inject_Z (valid_votes_for con cands w l0)). set (v := inject_Z (valid_votes con cands l0)).
     set (n := nlen l0) in *.
     assert (Ht : wv / (2 * f) * (2 * f) == wv) by (field; lra).
     set (t := wv / (2 * f)) in *.
+    rewrite Qdiv2. clearbody t wv v n.
     split; intro H.
     + assert (H1 : v * (1 # 2) < t) by lra. nra.
     + assert (H1 : v * (1 # 2) < t) by nra. lra.
@@ -168,19 +172,21 @@ Lemma range_pl con w l c : 0 <= assort_pl con w l c /\ assort_pl con w l c <= ub
 Proof.
   unfold assort_pl, ub_pl.
   destruct (as_vote_cases (get_vote_for c con w)) as [-> | ->];
-    destruct (as_vote_cases (get_vote_for c con l)) as [-> | ->]; simpl; split; lra.
+    destruct (as_vote_cases (get_vote_for c con l)) as [-> | ->]; split; unfold Qle; simpl; lia.
 Qed.
 
 Lemma range_sm con f w cands c : 0 < f -> f <= 1 ->
   0 <= assort_sm con f w cands c /\ assort_sm con f w cands c <= ub_sm f.
 Proof.
   intros Hf H1. unfold assort_sm, ub_sm.
-  assert (Hub : 0 <= 1 / (2 * f)). { apply Qle_shift_div_l; lra. }
+  assert (H2f : 0 < 2 * f) by lra.
+  assert (Hub : 0 <= 1 / (2 * f)). { apply Qle_shift_div_l; [assumption|lra]. }
+  assert (Hhalf : (1 # 2) <= 1 / (2 * f)). { apply Qle_shift_div_l; [assumption|lra]. }
   destruct (has_one_vote c con cands).
-  - destruct (as_vote_cases (get_vote_for c con w)) as [-> | ->]; simpl (inject_Z _); split; try lra.
-    + unfold Qdiv. lra.
-    + unfold Qdiv. lra.
-  - split; [lra|]. apply Qle_shift_div_l; lra.
+  - destruct (as_vote_cases (get_vote_for c con w)) as [-> | ->].
+    + change (inject_Z 0) with 0. assert (E : 0 / (2 * f) == 0) by (field; lra). rewrite E. split; [lra|assumption].
+    + change (inject_Z 1) with 1. split; [assumption|apply Qle_refl].
+  - split; [lra|assumption].
 Qed.
 
 (* ------------------------------------------------------------------ tallies *)
@@ -218,7 +224,7 @@ Lemma lookup0_entries x vs : NoDup (keys vs) -> forall acc,
   = (lookup0 x acc + if name_truthy x then as_vote (mark_of x vs) else 0)%Z.
 Proof.
   unfold mark_of. induction vs as [|[k m] vs IH]; intros Hnd acc; simpl.
-  - destruct (name_truthy x); simpl; lia.
+  - destruct (name_truthy x); unfold as_vote; simpl; lia.
   - inversion Hnd as [|? ? Hnotin Hnd']; subst. rewrite (IH Hnd'). unfold entry_step at 1. simpl fst. simpl snd.
     destruct (k =? x)%Z eqn:E.
     + apply Z.eqb_eq in E. subst k. rewrite (assoc_notin _ _ Hnotin).
@@ -240,8 +246,8 @@ Proof.
     + change (fun (a : list (Z * Z)) (xm : cand * mark) =>
                 if name_truthy (fst xm) then bump (fst xm) (as_vote (snd xm)) a else a) with entry_step.
       rewrite lookup0_entries; [reflexivity|]. apply (Hwf con). now apply assoc_in.
-    + lia.
-  - simpl. destruct (name_truthy x); simpl; lia.
+    + cbv iota. lia.
+  - simpl andb. destruct (name_truthy x); unfold as_vote; simpl; lia.
 Qed.
 
 Definition tcount (e : bool) (nw : Z) (con : contest_id) (x : cand) (c : card) : Z :=
@@ -362,6 +368,9 @@ Qed.
 Lemma Qeq_bool_pos_false q : 0 < q -> Qeq_bool q 0 = false.
 Proof. intro H. apply Qeq_bool_false. intro Hc. lra. Qed.
 
+Lemma xdiv_fin a b : 0 < b -> xdiv (Fin a) (Fin b) = Fin (a / b).
+Proof. intro H. unfold xdiv. now rewrite (Qeq_bool_pos_false _ H). Qed.
+
 Lemma margin_tally_supermajority e nw con cs w losers candidates us f arg :
   Forall wf_card cs -> Forall (fun x => x <> 0%Z) candidates -> In w candidates ->
   Permutation candidates (sm_cands w losers) -> w <> NO_CANDIDATE ->
@@ -392,9 +401,8 @@ Proof.
     change (ALL_OTHERS =? ALL_OTHERS)%Z with true. simpl orb. cbv iota.
     rewrite tsum_default, (tally_valid e nw con candidates ac cs Hwf Hnz Hperm Hok).
     rewrite tget_default, (tally_winner e nw con ac w cs Hwf Hw0 Hinac Hok). fold v tw.
-    unfold zq, xdiv at 3. fold (nlen fs). rewrite (Qeq_bool_pos_false _ Hn).
-    unfold xdiv at 2. rewrite (Qeq_bool_pos_false _ Hv).
-    unfold xdiv. rewrite (Qeq_bool_pos_false _ Hf). reflexivity.
+    unfold zq. change (inject_Z (Z.of_nat (List.length fs))) with (nlen fs).
+    rewrite (xdiv_fin _ _ Hn), (xdiv_fin _ _ Hv), (xdiv_fin _ _ Hf). reflexivity.
   - rewrite (sum_assort_sm _ _ _ _ _ Hf). unfold fs. rewrite valid_filter, valid_for_filter. fold fs v tw.
     field. repeat split; lra.
 Qed.
